@@ -973,13 +973,15 @@ example : mergeLabels ⟨["k"], ["k"], "_x", "_y"⟩ ["k", "b", "c"] ["k", "b", 
 /-! ### 11. Concat -/
 
 /-- stacking rows (`axis=0`): no input is ever removed (D31), every input is left alone or pruned to a sub-schema that
-    still has all requested columns it had -/
+    still has all requested columns it had, and an input that has columns keeps at least one of them (D85: an input
+    without any requested column still contributes rows of missing values, which decide the dtypes of the result) -/
 theorem C04_concat_wf (inner : Bool) (frames : List (List Name)) (p : Parent) (deps : List Dep) (rw : Rw)
     (h : concat false inner frames p deps = some rw) :
     (∀ b, b ∈ rw.dropped → b = false) ∧
-    rw.childs = frames.map (concatChild (detProj p deps []).toList) ∧
-    ∀ f, f ∈ frames → (concatChild (detProj p deps []).toList f = none ∨
-      ∃ cs, concatChild (detProj p deps []).toList f = some (.many cs) ∧ Adequate f [] p.cols cs) := by
+    rw.childs = frames.map (concatChild false (detProj p deps []).toList) ∧
+    ∀ f, f ∈ frames → (concatChild false (detProj p deps []).toList f = none ∨
+      ∃ cs, concatChild false (detProj p deps []).toList f = some (.many cs) ∧ Adequate f [] p.cols cs ∧
+        (f ≠ [] → cs ≠ [])) := by
   obtain ⟨hc, hd⟩ := concat_spec h
   refine ⟨?_, hc, ?_⟩
   · intro b hb
@@ -987,16 +989,16 @@ theorem C04_concat_wf (inner : Bool) (frames : List (List Name)) (p : Parent) (d
     obtain ⟨f, _, hf⟩ := hb
     rw [← hf]; rfl
   · intro f _
-    rcases concatChild_cases (detProj p deps []).toList f with h1 | h1
+    rcases concatChild_cases false (detProj p deps []).toList f with h1 | h1
     · exact Or.inl h1
-    · exact Or.inr ⟨_, h1, adequate_union_contains f p deps []⟩
+    · exact Or.inr ⟨_, h1, concatKeepCols_adequate false f p deps, concatKeepCols_ne_nil _ f⟩
 
 /-- labels: the parent projection is dropped only when the new Concat's own columns are exactly the requested list
     (and the parent is a frame selection); otherwise it is re-applied -/
 theorem C04_concat_labels (axis1 inner : Bool) (frames : List (List Name)) (p : Parent) (deps : List Dep) (rw : Rw)
     (h : concat axis1 inner frames p deps = some rw) (hk : rw.keep = false) :
     concatCols axis1 inner (((frames.filter (fun f => !concatDropped axis1 (detProj p deps []).toList f)).map
-        (fun f => f.filter ((detProj p deps []).toList.contains ·)))) = p.cols ∧ p.ndim1 = false := by
+        (concatKeepCols axis1 (detProj p deps []).toList))) = p.cols ∧ p.ndim1 = false := by
   unfold concat at h
   simp only at h
   split at h
@@ -1008,22 +1010,31 @@ theorem C04_concat_labels (axis1 inner : Bool) (frames : List (List Name)) (p : 
 /-- values (`axis=0`): every input's block of a requested column is what it was — an input that has none of the
     requested columns still contributes its (null) block -/
 theorem C04_concat_values (C : ConcatOp γ) (Fs : List (Frame γ)) (columns : List Name) (c : Name) (hc : c ∈ columns) :
-    (C.op (Fs.map (fun F => selOpt (concatChild columns F.cols) F))).val c = (C.op Fs).val c := by
+    (C.op (Fs.map (fun F => selOpt (concatChild false columns F.cols) F))).val c = (C.op Fs).val c := by
   rw [C.op_val, C.op_val, List.map_map]
   congr 1
   apply List.map_congr_left
   intro F _
-  show (if (selOpt (concatChild columns F.cols) F).cols.contains c = true then
-      (selOpt (concatChild columns F.cols) F).val c else none) = _
-  rcases concatChild_cases columns F.cols with hcc | hcc
+  show (if (selOpt (concatChild false columns F.cols) F).cols.contains c = true then
+      (selOpt (concatChild false columns F.cols) F).val c else none) = _
+  have hpc : (fun x => columns.contains x) c = true := List.contains_iff_mem.mpr hc
+  rcases concatChild_cases false columns F.cols with hcc | hcc
   · rw [hcc]; rfl
   · rw [hcc, selOpt_many, select_cols]
-    have hpc : (fun x => columns.contains x) c = true := List.contains_iff_mem.mpr hc
-    rw [filter_contains_of_pred (l := F.cols) hpc]
-    by_cases hin : F.cols.contains c = true
-    · rw [if_pos hin, if_pos hin]
-      exact select_val_mem (List.mem_filter.mpr ⟨List.contains_iff_mem.mp hin, hpc⟩)
-    · rw [if_neg hin, if_neg hin]
+    rcases concatKeepCols_cases false columns F.cols with hk | ⟨_, hnil, hk⟩
+    · rw [hk, filter_contains_of_pred (l := F.cols) hpc]
+      by_cases hin : F.cols.contains c = true
+      · rw [if_pos hin, if_pos hin]
+        exact select_val_mem (List.mem_filter.mpr ⟨List.contains_iff_mem.mp hin, hpc⟩)
+      · rw [if_neg hin, if_neg hin]
+    · -- the input has none of the requested columns: neither the kept first column nor the input has `c`
+      have hnot : ¬ c ∈ F.cols := fun hm => by
+        have : c ∈ F.cols.filter (fun x => columns.contains x) := List.mem_filter.mpr ⟨hm, hpc⟩
+        rw [hnil] at this; cases this
+      have h1 : ¬ (F.cols.contains c = true) := fun hh => hnot (List.contains_iff_mem.mp hh)
+      have h2 : ¬ ((F.cols.take 1).contains c = true) := fun hh =>
+        hnot (List.mem_of_mem_take (List.contains_iff_mem.mp hh))
+      rw [hk, if_neg h1, if_neg h2]
 
 /-- FULL STATEMENT (false on the current tree): `C04_concat_wf` for `axis=1` as well — no input is removed.
     With `axis=1` an input that contributes no selected column is removed from the Concat although it takes part in
@@ -1033,7 +1044,7 @@ theorem C04_concat_axis1_wf_partial (inner : Bool) (frames : List (List Name)) (
     (h : concat true inner frames p deps = some rw)
     (hall : ∀ f, f ∈ frames → ∃ c, c ∈ f ∧ c ∈ unionCols p deps []) :
     (∀ b, b ∈ rw.dropped → b = false) ∧
-    rw.childs = frames.map (concatChild (detProj p deps []).toList) := by
+    rw.childs = frames.map (concatChild true (detProj p deps []).toList) := by
   obtain ⟨hc, hd⟩ := concat_spec h
   refine ⟨?_, hc⟩
   intro b hb
@@ -1055,9 +1066,10 @@ theorem C04_concat_axis1_counterexample :
     concat true false [["a", "b"], ["c", "d"]] (.list ["a"]) [] =
       some { childs := [some (.many ["a"]), some (.many [])], keep := false, dropped := [false, true] } := by decide
 
--- D31: with axis=0 the second input stays (projected to no columns: it still contributes its rows)
+-- D31/D85: with axis=0 the second input stays, with one of its columns (it still contributes its rows and their
+-- missing values), and the parent selection is re-applied
 example : concat false false [["a", "b"], ["c", "d"]] (.list ["a"]) [] =
-    some { childs := [some (.many ["a"]), some (.many [])], keep := false, dropped := [false, false] } := by decide
+    some { childs := [some (.many ["a"]), some (.many ["c"])], keep := true, dropped := [false, false] } := by decide
 example : concat false false [["a", "b"], ["b", "c"]] (.list ["b"]) [] =
     some { childs := [some (.many ["b"]), some (.many ["b"])], keep := false, dropped := [false, false] } := by decide
 
